@@ -277,6 +277,8 @@ class PurityWorld:
                 return np.array(v["$cell"], dtype=float)
             if "$npint" in v:
                 return getattr(np, v.get("dtype", "int64"))(v["$npint"])
+            if "$npfloat" in v:
+                return getattr(np, v.get("dtype", "float64"))(v["$npfloat"])
             if "$dict" in v:
                 return {k: self.resolve(x, fresh) for k, x in v["$dict"].items()}
             return {k: self.resolve(x, fresh) for k, x in v.items()}
